@@ -3,11 +3,9 @@
 //! global +1 per acknowledged packet, NAKs through attribute_nak).
 //! Written to decide the multi-link clauses of C02 and the window-evolution clause of C10.
 //!
-//! NOT REGISTERED: the harnesses compile and encode (with the verif-model cut of the tokio relay
-//! send), but CBMC's symbolic execution of the async fn through `kani::block_on` does not finish
-//! (> 25 min per harness; a minimal, almost fully concrete call did not finish symex in 7 min even
-//! with the handlers of the other arms and the RTT estimator stubbed, while a hand-written async
-//! fn doing the same work takes 35 s).  Kept for a future tool version; see DESIGN.md section 7.
+//! Registered under C02 (dispatch) and C10 (window evolution).  The async fn is polled exactly once through
+//! the hook wrapper that returns its own future (DESIGN.md 2.5): 45-55 s per harness.  Before that
+//! (`kani::block_on`, nested `async fn` wrapper) none of these finished in 2 h.
 use std::mem::MaybeUninit;
 
 use srtla_core::connection::{SrtlaConnection, SrtlaIncoming};
@@ -230,3 +228,83 @@ fn c10_window_evolution_two_acks() {
     core::mem::forget(tracker);
 }
 
+
+/// C05 through the real dispatch loop: a datagram whose NAK list holds TWO numbers - the same number twice, or two
+/// different ones - while the tracker remembers link 0 as the carrier of both (fresh entries written through the
+/// real `insert`).  Per NAKed number only the remembered carrier is charged, only if it still holds the packet,
+/// by exactly (+1 loss, -100 floored at 1000, -1 in flight); probe copies on link 1 are never charged; the repeated
+/// NAK changes nothing.  (The carrier sits at slice position 0: position 1 trips the CBMC artefact described in
+/// DESIGN.md section 7.)
+///
+/// NOT REGISTERED: every functional assertion and cover goal below comes back SUCCESS / SATISFIED (247 s), but
+/// CBMC reports five failures inside Kani's own `__rust_dealloc` model (double free / invalid free) that have no
+/// Rust source location and no counterpart in the one-NAK harnesses over the same code; they look like the
+/// same artefact family as the position-1 instance of C05.  A check that fails on the unchanged tree for a
+/// reason I cannot attribute to the code is not registered; NAK lists stay covered by the inductive one-NAK step.
+#[kani::proof]
+#[kani::unwind(6)]
+#[kani::stub(srtla_core::utils::now_ms, stub_now_ms)]
+#[kani::stub(alloc::fmt::format, no_format)]
+#[kani::stub(srtla_core::connection::RttTracker::update_estimate, no_rtt_update)]
+fn c05_nak_list_two_entries_unregistered() {
+    const N: usize = 2;
+    let now = any_now();
+    set_clock(now);
+    let size = srtla_send::sender::SEQ_TRACKING_SIZE as u32;
+    let ha: u32 = kani::any();
+    let hb: u32 = kani::any();
+    kani::assume(ha < 0x7fff_0000 / size && hb < 0x7fff_0000 / size);
+    let a: u32 = ha * size + 3; // two different ring slots, the rest of the 31-bit numbers symbolic
+    let b: u32 = hb * size + 5;
+    let duplicate: bool = kani::any();
+    let holds_a: [bool; N] = [kani::any(), kani::any()];
+    let holds_b: [bool; N] = [kani::any(), kani::any()];
+    let mut conns: [SrtlaConnection; N] = core::array::from_fn(|i| {
+        let mut c = any_conn(i as u64 + 1, SYM_INT);
+        let mut n = 0;
+        if holds_a[i] {
+            c.vh_packet_log_mut().insert(a as i32, any_time());
+            n += 1;
+        }
+        if holds_b[i] {
+            c.vh_packet_log_mut().insert(b as i32, any_time());
+            n += 1;
+        }
+        c.in_flight_packets = n;
+        c
+    });
+    let mut tracker = SequenceTracker::new();
+    tracker.insert(a, 1, now); // conn_id 1 = link 0 carried both unique copies
+    tracker.insert(b, 1, now);
+    let sock = MaybeUninit::uninit();
+    let mut inc = SrtlaIncoming::default();
+    inc.read_any = true;
+    inc.nak_numbers.push(a);
+    inc.nak_numbers.push(if duplicate { a } else { b });
+    let w0: [i32; N] = core::array::from_fn(|i| conns[i].window);
+    let f0: [i32; N] = core::array::from_fn(|i| conns[i].in_flight_packets);
+    let n0: [i64; N] = core::array::from_fn(|i| conns[i].vh_congestion().nak_count as i64);
+    kani::assume(n0[0] < 1_000_000 && n0[1] < 1_000_000); // loss counters far from i32::MAX
+
+    let r = poll_once(process_connection_events(0, &mut conns[..], None, fake_socket(&sock), &tracker, kani::any(), inc));
+    assert!(r.is_ok(), "dispatch never fails");
+
+    let charges: i32 = holds_a[0] as i32 + (!duplicate && holds_b[0]) as i32;
+    let mut w = w0[0];
+    let mut k = 0;
+    while k < charges {
+        w = core::cmp::max(w - 100, 1000);
+        k += 1;
+    }
+    assert!(conns[0].vh_congestion().nak_count as i64 == n0[0] + charges as i64, "one loss count per NAKed number the carrier still held; the repeated NAK adds nothing");
+    assert!(conns[0].window == w, "one window decrement of 100 (floored at 1000) per charge");
+    assert!(conns[0].in_flight_packets == f0[0] - charges, "one in-flight slot per charge");
+    assert!(conns[1].vh_congestion().nak_count as i64 == n0[1] && conns[1].window == w0[1] && conns[1].in_flight_packets == f0[1],
+        "while the carrier is remembered no other uplink is charged, whatever it holds");
+    assert!(conns[1].vh_packet_log().contains_key(&(a as i32)) == holds_a[1] && conns[1].vh_packet_log().contains_key(&(b as i32)) == holds_b[1], "probe copies on the other link stay outstanding");
+    kani::cover!(duplicate && holds_a[0] && holds_a[1], "duplicate NAK, carrier and a probe copy");
+    kani::cover!(!duplicate && holds_a[0] && holds_b[0] && w0[0] < 1150, "two different numbers, both charged, floor reached");
+    kani::cover!(!duplicate && !holds_a[0] && holds_a[1], "carrier already retired it, probe holder untouched");
+    core::mem::forget(conns);
+    core::mem::forget(tracker);
+}
